@@ -189,3 +189,21 @@ def nontrivial(o):
     c = o["in"]
     both = set(c["porder"]) & set(c["aorder"])
     return any(x["id"] in both and x["id"] != 1 and x["anns"] and x["preds"] for x in c["clips"])
+
+MANIFEST = {
+    "text": ("Detection.tla states sound_event_detection declaratively (ClipsAreIntersection, EveryEventOnce, PairedOnlyIfOverlap, "
+             "PairAffinity, PairScore, UnpairedZero, ClipScoreIsMean, OverallIsMeanOfClips, plus Returns). MC_Detection.tla "
+             "transcribes iterate_over_valid_clips and evaluate_clip (the two filtered geometry lists, the matcher as any outcome "
+             "its C07 contract allows, the three-way split, events without geometry, the ClipEvaluation validator, _mean) and TLC "
+             "checks Impl => Req with the same clause operators on exact rationals for every arrangement of <= 2 x 2 events "
+             "(geometry-less, overlapping, touching, disjoint; class A / B / none; score vectors in quarters) and every order / "
+             "membership of three clips; the algorithm as found fails Returns, PairAffinity and PairedOnlyIfOverlap "
+             "(spec/history/MC_Detection_prefix*). Every enumerated run is executed on the real code at two dyadic units and TLC "
+             "validates who was matched with whom, affinities (exact box IoU), scores (exact quarters) and the means; random runs "
+             "with up to 4 clips x 4 + 4 events of all geometry kinds are validated against the observed affinities."),
+    "note": ("trusted: TLC, binder checks/c08.py (encoder: uuid -> list position, doubles -> limbs). Generated runs always contain "
+             "one labelled annotation and a vocabulary of >= 2 tags, because the run-level metrics computed by the same call raise "
+             "otherwise (C09's subject). Means are decided on values floored to 2^-24 and exactly (rationals) when the match scores "
+             "are the specified ones."),
+    "design_ref": "DESIGN.md section 4 C08",
+}
